@@ -11,7 +11,8 @@ tmo = int(sys.argv[2]) if len(sys.argv) > 2 else 5000
 dump = sys.argv[3] if len(sys.argv) > 3 else None
 reg = Registry(os.environ.get("REPO", "/repo"))
 c = reg.contracts[name]
-ex = Exec(name, reg.function_ast(c.get("function", name)), c, reg)
+import json
+ex = Exec(name, reg.function_ast(c.get("function", name)), c, reg, split=json.loads(os.environ.get("SPLIT", "{}")))
 ex.z3_timeout_ms, ex.cvc5_timeout_s, ex.retries = tmo, 0, 1
 orig = ex.prove
 def prove(st, nm, goal, line=None):
